@@ -2,6 +2,7 @@ package main
 
 import (
 	"fmt"
+	"os"
 	"go/token"
 	"go/types"
 	"sort"
@@ -857,7 +858,17 @@ func (e *Engine) debugRef(st *State, fr *Frame, x *ssa.DebugRef) {
 			panic(r)
 		}
 	}()
+	if _, isConst := x.X.(*ssa.Const); isConst && !x.IsAddr {
+		// x/tools emits the zero constant at the definition of a variable initialised by a composite
+		// literal; if the variable has exactly one other SSA value, that value is its meaning
+		if u := e.uniqueValues(fr.fn)[obj.Name()]; u != nil {
+			return
+		}
+	}
 	v := e.operand(st, fr, x.X)
+	if os.Getenv("GOVC_TRACE_NAMES") != "" {
+		fmt.Fprintf(os.Stderr, "[debugref] %s.%s := %v (%s)\n", fr.fn.Name(), obj.Name(), v, x.X.Name())
+	}
 	fr.names[obj.Name()] = NameBinding{V: v, IsAddr: x.IsAddr}
 }
 
@@ -1311,4 +1322,55 @@ func (e *Engine) addrUsesLocal(v ssa.Value, seen map[ssa.Value]bool) bool {
 		}
 	}
 	return true
+}
+
+var uniqCache = map[*ssa.Function]map[string]ssa.Value{}
+
+// uniqueValues maps a source variable name to its only non-constant SSA value, when it has exactly one.
+func (e *Engine) uniqueValues(fn *ssa.Function) map[string]ssa.Value {
+	if m, ok := uniqCache[fn]; ok {
+		return m
+	}
+	vals := map[string]map[ssa.Value]bool{}
+	bad := map[string]bool{}
+	for _, b := range fn.Blocks {
+		for _, in := range b.Instrs {
+			switch x := in.(type) {
+			case *ssa.DebugRef:
+				obj := x.Object()
+				if obj == nil {
+					continue
+				}
+				if _, ok := obj.(*types.Var); !ok {
+					continue
+				}
+				if x.IsAddr {
+					bad[obj.Name()] = true
+					continue
+				}
+				if _, isConst := x.X.(*ssa.Const); isConst {
+					continue
+				}
+				if vals[obj.Name()] == nil {
+					vals[obj.Name()] = map[ssa.Value]bool{}
+				}
+				vals[obj.Name()][x.X] = true
+			case *ssa.Phi:
+				if x.Comment != "" {
+					bad[x.Comment] = true
+				}
+			}
+		}
+	}
+	m := map[string]ssa.Value{}
+	for n, vs := range vals {
+		if bad[n] || len(vs) != 1 {
+			continue
+		}
+		for v := range vs {
+			m[n] = v
+		}
+	}
+	uniqCache[fn] = m
+	return m
 }
